@@ -53,22 +53,26 @@ func parseUrlPath(pathStr string, m meta.Definition) ([]*Path, error) {
 		if !hasDefs {
 			return nil, fmt.Errorf("%w. nothing can be selected inside %s", fc.BadRequestError, p.Meta.Ident())
 		}
-		seg.Meta = meta.Find(parent, ident)
-		if seg.Meta == nil {
-			// check for fully qualified ident
-			if colon := strings.IndexRune(ident, ':'); colon > 0 {
-				module := ident[:colon]
-				ident = ident[colon+1:]
-				potential := meta.Find(parent, ident)
-				if potential != nil {
-					if meta.OriginalModule(potential).Ident() == module {
-						seg.Meta = potential
-					} else if meta.BelongsToModule(meta.OriginalModule(potential)).Ident() == module {
-						// defined in a submodule of that module
-						seg.Meta = potential
-					}
+		if strings.ContainsRune(ident, '/') {
+			// an escaped slash is part of the name, no name has one
+			return nil, fmt.Errorf("%w. %s not found in %s", fc.NotFoundError, ident, p.Meta.Ident())
+		}
+		if colon := strings.IndexRune(ident, ':'); colon > 0 {
+			// fully qualified ident
+			module := ident[:colon]
+			ident = ident[colon+1:]
+			potential := meta.Find(parent, ident)
+			if potential != nil {
+				orig := meta.OriginalModule(potential)
+				if orig.Ident() == module || orig.Prefix() == module {
+					seg.Meta = potential
+				} else if meta.BelongsToModule(orig).Ident() == module {
+					// defined in a submodule of that module
+					seg.Meta = potential
 				}
 			}
+		} else {
+			seg.Meta = meta.Find(parent, ident)
 		}
 		if seg.Meta == nil {
 			return nil, fmt.Errorf("%w. %s not found in %s", fc.NotFoundError, ident, p.Meta.Ident())
